@@ -90,7 +90,22 @@ fn items_upto(evs: &[TEv], k: u64) -> Option<Vec<Tracked>> {
                 }
             }
             "block_write" | "batch_sqe" | "zero_range" => {
-                let data = unhex(&e.data)?;
+                let data = match unhex(&e.data) {
+                    Some(d) => d,
+                    None => {
+                        // too large for the trace: the bytes are still in the traced run's file,
+                        // provided no later event wrote into the same range
+                        let overlapped = evs.iter().any(|x| x.n > e.n && x.path == e.path && matches!(x.site.as_str(), "block_write" | "batch_sqe" | "zero_range") && x.off < e.off + e.len && e.off < x.off + x.len);
+                        if overlapped {
+                            return None;
+                        }
+                        use std::os::unix::fs::FileExt;
+                        let f = std::fs::File::open(&e.path).ok()?;
+                        let mut buf = vec![0u8; e.len as usize];
+                        f.read_exact_at(&mut buf, e.off).ok()?;
+                        buf
+                    }
+                };
                 if data.len() as u64 != e.len {
                     return None;
                 }
@@ -194,11 +209,12 @@ pub struct PowerCase {
     pub subsets: Vec<u64>,
 }
 
-pub fn power_strategy() -> BoxedStrategy<PowerCase> {
+pub fn power_strategy(p: SizeProfile) -> BoxedStrategy<PowerCase> {
     let mix = Mix { append: 34, batch: 14, batch_many: 0, read_next: 26, batch_read: 10, max_batch: 4, ..Mix::consuming() };
+    let n = if p == SizeProfile::Tiny { 3..15usize } else { 3..9usize };
     (
         (mode_strategy(), any::<bool>(), topics_strategy(2)).prop_map(|(mode, fd, topics)| Cfg { mode, fsync: Fsync::Each, fd, topics }),
-        proptest::collection::vec(op_strategy(&mix, SizeProfile::Tiny), 3..15),
+        proptest::collection::vec(op_strategy(&mix, p), n),
         drain_strategy(),
         proptest::collection::vec(any::<u64>(), 6),
     )
@@ -269,7 +285,11 @@ pub fn power_case(prop: &str, case: &PowerCase, max_points: usize, all_subsets_u
     let evs: Vec<TEv> = std::fs::read_to_string(&trace_path).map(|s| s.lines().filter_map(|l| serde_json::from_str::<TEv>(l).ok()).collect()).unwrap_or_default();
     let topics_init = run.init.clone();
     let cfg = case.base.cfg.clone();
-    let _ = run.finish();
+    // end the traced process but keep its directory: large writes are read back from it
+    if let Some(c) = run.child.take() {
+        let _ = c.exit(true);
+    }
+    let _keep_traced_dir = run;
     if diverged {
         o.features.insert("traced_run_diverged".into());
         return o;
@@ -480,9 +500,34 @@ pub fn c10(ctx: &Ctx) {
     let q = ctx.tier == Tier::Quick;
     let prop = ctx.prop.clone();
     let (pts, allsub) = if q { (10usize, 3usize) } else { (400usize, 10usize) };
+    // block-sized payloads (entries aimed at exact block ends, rotations): fewer, heavier cases
+    {
+        let prop = ctx.prop.clone();
+        let s = Search {
+            name: "synceach-power-loss-block".to_string(),
+            strategy: Box::new(|| power_strategy(SizeProfile::Block)),
+            run: Box::new(move |case: &PowerCase| {
+                let o = power_case(&prop, case, if q { 8 } else { 200 }, if q { 2 } else { 8 });
+                let mut rep = CaseReport::default();
+                rep.features = o.features;
+                rep.features.insert("block_sized_payloads".into());
+                rep.inconclusive = o.inconclusive;
+                rep.sub_evaluations = o.evaluated.saturating_sub(1);
+                rep.sub_nontrivial = o.nontrivial;
+                rep.sample = o.sample;
+                rep.violation = o.violation;
+                rep
+            }),
+            cases: if q { 24 } else { 600 },
+            workers: cores(),
+            max_shrink_iters: 30,
+            shrink_secs: 300,
+        };
+        run_search(ctx, &s);
+    }
     let s = Search {
         name: "synceach-power-loss".to_string(),
-        strategy: Box::new(power_strategy),
+        strategy: Box::new(|| power_strategy(SizeProfile::Tiny)),
         run: Box::new(move |case: &PowerCase| {
             let o = power_case(&prop, case, pts, allsub);
             let mut rep = CaseReport::default();
